@@ -36,7 +36,7 @@ def run(ctx):
     unspellable = 0
     for p in progs:
         for mode in (('cmt', 'blank') if quick else ('cmt', 'ws', 'blank', 'cmt')):
-            sp = sqlprog.spell(p, rng, gaps=mode, tight=(rng.random() < 0.3))
+            sp = sqlprog.spell(p, rng, gaps=mode, tight=(rng.random() < 0.3), tail=True)
             if not sqlprog.lexes_as_intended(sp):
                 unspellable += 1
                 continue
